@@ -199,6 +199,7 @@ impl Property for GramProp {
     fn sweeps(&self, tier: Tier, seed: u64) -> Vec<Box<dyn super::Sweep>> {
         match self.id {
             "C12" => vec![Box::new(RealWorld)],
+            "C14" => vec![Box::new(RealDeletions)],
             "C13" => vec![Box::new(GapAfterDelimiter { seed, programs: if tier == Tier::Thorough { 20_000 } else { 2_000 } })],
             _ => vec![],
         }
@@ -396,6 +397,122 @@ fn check_c14_open_parens(m: &str, open: usize) -> Verdict {
         vd.violations.push(Violation::new("C14", "no-recovery-token", "no-recovery-token:RPAREN:count", format!("{open} parentheses are open at end of input of {m:?} but {virt} zero-width RPAREN tokens were inserted")));
     }
     vd
+}
+
+/// C14 on code written by people: every real-world program and test-suite literal that lexes without error is taken
+/// as it is; the lexer's own tokens locate its mandatory delimiters (the '=' of %let and of an iterative %do, the '('
+/// directly after an argument-taking built-in, the ';' after %end / %return, the '/' of %copy); each is left out in turn
+/// (a blank in its place unless whitespace is adjacent) and the matching error + recovery token are expected at the
+/// next significant character. Shapes the construct grammar does not derive come in this way.
+pub struct RealDeletions;
+const ARG_BUILTINS: &[&str] = &["EVAL", "SYSEVALF", "SCAN", "QSCAN", "KSCAN", "QKSCAN", "SUBSTR", "QSUBSTR", "KSUBSTR", "QKSUBSTR", "UPCASE", "QUPCASE", "LOWCASE", "QLOWCASE", "LENGTH", "INDEX", "QUOTE", "NRQUOTE", "BQUOTE", "NRBQUOTE", "SUPERQ", "UNQUOTE", "SYMEXIST", "SYSGET", "CMPRES", "QCMPRES", "LEFT", "QLEFT", "TRIM", "QTRIM", "DATATYP", "SYSFUNC", "QSYSFUNC", "STR", "NRSTR", "VERIFY", "KUPCASE", "KLENGTH", "KINDEX", "SYSPROD", "SYMGLOBL", "SYMLOCAL", "SYSMACEXEC", "SYSMACEXIST", "WHILE", "UNTIL"];
+fn real_sources() -> Vec<String> {
+    let c = crate::gen::corpus();
+    let mut v: Vec<String> = c.programs.iter().map(|(_, t)| t.clone()).collect();
+    v.extend(c.tests.iter().cloned());
+    v
+}
+impl super::Sweep for RealDeletions {
+    fn name(&self) -> String {
+        format!("single-delimiter deletions located by the lexer's own tokens in the {} real-world programs and test-suite literals that lex without error", real_sources().len())
+    }
+    fn chunks(&self) -> usize {
+        real_sources().len().div_ceil(20)
+    }
+    fn run_chunk(&self, chunk: usize, f: &mut dyn FnMut(Case)) {
+        let srcs = real_sources();
+        for src in srcs.iter().skip(chunk * 20).take(20) {
+            if src.len() > 200_000 {
+                continue;
+            }
+            let d = match lex(Variant::Rel, src) {
+                Lexed::Ok(d) if d.errs.is_empty() && !d.verif.budget_exceeded => d,
+                _ => continue,
+            };
+            let n = d.toks.len();
+            let hidden = |t: &crate::api::Tok| t.t == T::WS || t.ch == Ch::COMMENT;
+            let next_sig = |mut j: usize| {
+                while j < n && hidden(&d.toks[j]) {
+                    j += 1;
+                }
+                j
+            };
+            let mut dels: Vec<(usize, &'static str, &'static str)> = vec![]; // token index, error, token
+            for i in 0..n {
+                let t = &d.toks[i];
+                let raw = &src[t.b as usize..t.e as usize];
+                match t.t {
+                    T::KwmLet => {
+                        if let Some(j) = (i + 1..n).take_while(|&j| d.toks[j].t != T::SEMI).find(|&j| d.toks[j].t == T::ASSIGN) {
+                            dels.push((j, "MissingExpectedAssign", "ASSIGN"));
+                        }
+                    }
+                    T::KwmDo => {
+                        let stop = (i + 1..n).find(|&j| d.toks[j].t == T::SEMI).unwrap_or(n);
+                        if let Some(to) = (i + 1..stop).find(|&j| d.toks[j].t == T::KwmTo) {
+                            if let Some(j) = (i + 1..to).find(|&j| d.toks[j].t == T::ASSIGN) {
+                                dels.push((j, "MissingExpectedAssign", "ASSIGN"));
+                            }
+                        }
+                    }
+                    T::KwmEnd | T::KwmReturn => {
+                        let j = next_sig(i + 1);
+                        if j < n && d.toks[j].t == T::SEMI && !d.toks[j].empty() {
+                            dels.push((j, "MissingExpectedSemiOrEOF", "SEMI"));
+                        }
+                    }
+                    T::KwmCopy => {
+                        if let Some(j) = (i + 1..n).take_while(|&j| d.toks[j].t != T::SEMI).find(|&j| d.toks[j].t == T::FSLASH) {
+                            dels.push((j, "MissingExpectedFSlash", "FSLASH"));
+                        }
+                    }
+                    x if crate::oracle::kw::is_kwm(x) && raw.len() > 1 && ARG_BUILTINS.contains(&raw[1..].to_ascii_uppercase().as_str()) => {
+                        let j = next_sig(i + 1);
+                        if j < n && d.toks[j].t == T::LPAREN && !d.toks[j].empty() {
+                            dels.push((j, "MissingExpectedLParen", "LPAREN"));
+                        }
+                    }
+                    _ => {}
+                }
+            }
+            let b = src.as_bytes();
+            for (j, err, tok) in dels.into_iter().take(400) {
+                let (off, len) = (d.toks[j].b as usize, (d.toks[j].e - d.toks[j].b) as usize);
+                if len == 0 {
+                    continue;
+                }
+                let ws_adj = (off > 0 && (b[off - 1] as char).is_ascii_whitespace()) || (off + len < b.len() && (b[off + len] as char).is_ascii_whitespace());
+                let fill = if ws_adj { "" } else { " " };
+                let mut m = src.clone();
+                m.replace_range(off..off + len, fill);
+                // the error is expected at the next significant character
+                let mut q = off;
+                loop {
+                    let rest = &m[q..];
+                    match rest.chars().next() {
+                        Some(c) if c.is_whitespace() => q += c.len_utf8(),
+                        Some(_) if rest.starts_with("/*") => match rest[2..].find("*/") {
+                            Some(e) => q += e + 4,
+                            None => break,
+                        },
+                        _ => break,
+                    }
+                }
+                if q >= m.len() && tok == "SEMI" {
+                    continue; // end of input: no error is expected for a missing final ';'
+                }
+                if m[q..].starts_with(&src[off..off + len]) {
+                    continue; // the next significant character is the same delimiter
+                }
+                let mut c = Case::text("real-world-deletion", m);
+                c.kind = "expect-missing".into();
+                c.texts.push(err.to_string());
+                c.texts.push(tok.to_string());
+                c.n = q as u64;
+                f(c);
+            }
+        }
+    }
 }
 
 /// C12 on the statement-complete real-world programs of the corpus (whole files, and each file
